@@ -451,7 +451,7 @@ def _names(rep, b):
 # --------------------------------------------------------------------------
 # C03
 # --------------------------------------------------------------------------
-STRICT = ("cpe", "timeout", "boom", "keyerr", "valerr")
+STRICT = ("cpe", "timeout", "boom", "keyerr", "valerr", "typeerr")
 
 
 def oracle_c03(r):
